@@ -35,6 +35,11 @@ CHECKS = {
          "Part A drives AdvancedAgenda with every sequence of a 21-operation alphabet to the stated length plus random sequences and checks each pop against a shadow multiset (no eligible pending activation of the focused group with a larger (salience, earlier-created) key; no-loop and activation-group exclusivity between resets). Part B runs rule programs incl. always-true rules without no-loop on IncrementalEngine, TypedReteUlEngine, ReteUlEngine and the free fire_rete_ul_rules* functions in child processes; action closures count executions and unwind beyond 100 x 1000 x #rules (logical 'does not return'); documented iteration bounds are checked. Part C checks no-loop, salience order and the bound on IncrementalEngine histories. Held = no explored sequence or program broke a clause apart from the pinned findings.",
          "'Earlier-created' is the order of Activation::new calls with forced distinct instants (equal-instant ties are not exercised). Lock-on-active, auto-focus, ruleflow groups and non-Salience strategies are outside the statement. Action-free spinning can only be inconclusive under the CPU back-stop (none occurred).",
          "DESIGN.md §5 C07"),
+ "C08": ("exploration",
+         "state-invariant monitor with an independent reference support model over exhaustive and random insert/justify/retract histories",
+         "Runs IncrementalEngine + TruthMaintenanceSystem on every history of 7 ops over <=4 facts and 6 ops over <=7 facts (thorough: 7 ops over <=7 facts, 8 ops over <=4 facts) plus random histories up to 10 ops / 7 facts (explicit inserts, logical inserts with every premise set of <=3 live facts, extra justifications incl. self- and mutual support, retraction of any live fact). After every operation it compares presence of every handle, the TMS view and the retract result with a model of the statement. Held = no operation of any explored history broke the invariant.",
+         "Premises are live when recorded. Justifications are only added to live logical facts. Both readings of cyclic support are accepted (the engine follows the literal one). Retraction and logical insertion driven by rule actions go through the same functions and are not varied separately.",
+         "DESIGN.md §5 C08"),
  "C09": ("exploration",
          "differential monitor: real GRL parser + BackwardEngine vs independent references (three-valued goal evaluator on returned facts; multi-valued Horn closure and definite derivation heights on initial facts); exhaustive small family + seeded random KBs; Miri on the BFS raw-pointer queue (thorough)",
          "Horn KBs generated as GRL text (parsed rules must equal the generator's AST), one query per fresh engine, memoisation off; provable => goal true on the facts handed back (S1) and satisfiable in an over-approximating forward closure (S2); a DFS 'not provable' is a violation when a derivation of height <= max_depth through conjunctive rules over single-valued fields exists (K); cases with several top-level candidates are repeated (HashSet candidate order). Held = no judged answer disagreed apart from the open findings; thorough also needs a clean Miri run (Stacked+Tree Borrows) of BFS over goal trees.",
@@ -70,6 +75,11 @@ CHECKS = {
          "After every operation of every generated history (<=10 ops) the optimised answer is compared with the plain one: AlphaMemoryIndex::filter for every field x every domain value against a shadow instance that never creates an index; BetaMemoryIndex::lookup for every printed key against the harness's list of live facts; every MemoizedEvaluator::evaluate against evaluate_typed on fact sets that print alike but differ in type; ConclusionIndex::find_candidates >= enabled present rules with a Set on the goal's field, for goals with every documented operator, spacing, string literals holding operator text, and negation. All (stored, probe) value pairs and all print-alike pairs x operators x literals are enumerated. Held = no comparison broke, apart from the listed known findings.",
          "alpha 'without index' is the library's own linear path. beta keys are Debug renderings (its own test's convention). The memo closure is evaluate_typed itself. conclusion: unique rule names while present, only Set counts as 'assigns', single-field goals only; inside BackwardEngine an empty index answer falls back to a linear scan, which masks the two conclusion findings at engine level.",
          "DESIGN.md §5 C16"),
+ "C17": ("exploration",
+         "state monitor with a reference support model (sticky invalidation) over exhaustive and random insert_proof/invalidate_handle histories",
+         "Runs ProofGraph on every proviso-respecting sequence up to length 4 over 5 handles and length 6 over 3 handles (thorough: length 5 over 4 and 5 handles) and on random histories up to 9 ops / 5 handles (thorough also 14 / 7), every insertion order including dependents before premises, re-proof under the same and a fresh handle. It compares get_node.valid, is_proven and lookup_by_key with the model at the end of every prefix and after every op. Held = no prefix of any explored history disagreed apart from the pinned finding.",
+         "Invalidation is read as sticky. Invalidated handles are never reused as premises. Each handle keeps one key. Premises without a node count as base facts.",
+         "DESIGN.md §5 C17"),
  "C18": ("exploration",
          "online step monitor with an independent reference model (strict/liberal bounds) over exhaustive and random operation sequences on ModuleManager; full public snapshot after every operation",
          "Runs the real ModuleManager on every operation sequence of a stated length over a reduced 36-operation alphabet (create/delete/export/add-rule/imports incl. self-imports, other types and patterns, MAIN, re-exports) from three start prefixes, and on random sequences of up to 7 operations over the full alphabet, with deletions and re-creations of imported modules. After every operation it checks that declarations and import_graph among existing modules are acyclic, that a refused import changed nothing, that every visibility query on an existing module answers, and that is_rule_visible / get_visible_rules lie between a strict and a liberal reading of the statement (identical when no re-export or outlived declaration is involved) and agree with each other. Held = no step of any explored sequence broke a clause other than the pinned known findings.",
